@@ -22,6 +22,7 @@ EXPLANATION = (
     "digit-wise dispatch of 0/1 text, explicit dtype applied last, digit-wise conversion by parsing not by code-point arithmetic, parsed rows keep their axes (no squeeze/ravel). "
     "Decided: these structural clauses (necessary conditions); not decided: floating-point round-trips, printed precision.")
 EXPLANATION += (" Added after the audit wave: C19.4 rcos allocates its result with a floating dtype of its own (an integer grid must not truncate the roll-off values); C19.6 0/1 text is read token-wise for every numeric dtype, numpy's scalar types included - one result per requested dtype (int, float, complex, np.int64, np.float64, np.complex128, np.float32, bool, None); np.issubdtype on type objects is folded by numpy's scalar hierarchy.")
+EXPLANATION += (" Fourth audit wave: C19.8 the argument of the numpy logarithm in db and dbm has been made floating first (astype(float) / a constructor with a floating dtype / a product with a float constant / log10(..., dtype=float)), read from the source with local names followed: numpy chooses the precision of log10 from the argument's dtype, float16 for 8-bit integers. Also: the interpreter no longer assumes that re.search/match and similar lookups return something.")
 TRUSTED = ["CPython ast", "numpy log10/power semantics", "re._parser character classes", "scipy.special.erfc"]
 
 SI_EXP = {"f": -15, "p": -12, "n": -9, "µ": -6, "μ": -6, "u": -6, "m": -3, "": 0, "k": 3, "M": 6, "G": 9, "T": 12}
@@ -280,6 +281,65 @@ def rule_rcos(ctx):
             has_dtype = any(k.arg == "dtype" for k in n.keywords) or len(n.args) >= (3 if src_of(n.func).endswith("full_like") else 2)
             ctx.check("C19.4", has_dtype, fi, n, f"rcos result buffer: {src_of(n)}", "floating dtype whatever the dtype of the grid",
                       "the result array inherits the dtype of `x`: for an integer-typed frequency grid the roll-off values are truncated (rcos([0,1,2,3,4], 0.5, 0.25)[2] is 0, not 1/2)")
+
+
+def rule_log_precision(ctx):
+    """C19.8: idb(db(x)) = x and dbm(x) = db(x) + 30 for arrays too: numpy picks the loop of log10 by the dtype of its argument - an 8-bit
+    integer array is logged in float16, a 16-bit one in float32 - so the value handed to log10 must have been made floating first (an
+    astype / a constructor with a floating dtype / a product or quotient with a float constant / float()), or log10 is told its dtype.
+    Read from the source: the argument of every log10 call, a local name followed to all its assignments in the function"""
+    mod_floats, log_alias = set(), set()
+    floats = ("float", "np.float64", "numpy.float64", "np.double", "np.longdouble", "np.float_", "'float64'", '"float64"', "'float'", '"float"', "'f8'", "'d'")
+
+    def floaty(e):
+        for n in ast.walk(e):
+            if isinstance(n, ast.Call):
+                f = src_of(n.func)
+                if f.endswith(".astype") and n.args and (src_of(n.args[0]) in floats or "result_type" in src_of(n.args[0])):
+                    return True
+                if f.split(".")[-1] in ("array", "asarray", "asanyarray", "asfarray", "ascontiguousarray") and (
+                        f.endswith("asfarray") or any(k.arg == "dtype" and src_of(k.value) in floats for k in n.keywords) or (len(n.args) >= 2 and src_of(n.args[1]) in floats)):
+                    return True
+                if f == "float":
+                    return True
+            if isinstance(n, ast.BinOp) and isinstance(n.op, (ast.Mult, ast.Div)) and any((isinstance(o, ast.Constant) and isinstance(o.value, float)) or
+                                                                                        (isinstance(o, ast.Name) and o.id in mod_floats) for o in (n.left, n.right)):
+                return True
+        return False
+    # module-level names: a float constant (`_MW_PER_W = 1e3`) and an alias of the logarithm (`_log10 = np.log10`)
+    for n in ctx.pkg.module("utils").tree.body:
+        if isinstance(n, ast.Assign) and len(n.targets) == 1 and isinstance(n.targets[0], ast.Name):
+            if isinstance(n.value, ast.Constant) and isinstance(n.value.value, float):
+                mod_floats.add(n.targets[0].id)
+            if isinstance(n.value, ast.Attribute) and n.value.attr in ("log10", "log", "log2") and src_of(n.value).split(".")[0] in ("np", "numpy"):
+                log_alias.add(n.targets[0].id)
+    for q in ("utils.db", "utils.dbm"):
+        fi = ctx.pkg.func(q)
+        assigns = {}
+        for n in ast.walk(fi.node):
+            if isinstance(n, ast.Assign) and len(n.targets) == 1 and isinstance(n.targets[0], ast.Name):
+                assigns.setdefault(n.targets[0].id, []).append(n.value)
+        calls = [n for n in ast.walk(fi.node) if isinstance(n, ast.Call) and n.args and (
+                 (src_of(n.func).split(".")[-1] in ("log10", "log", "log2") and src_of(n.func).split(".")[0] in ("np", "numpy")) or (isinstance(n.func, ast.Name) and n.func.id in log_alias))]
+        if not calls:
+            ctx.unknown("C19.8", fi, fi.node, f"{fi.name}: logarithm", "no numpy logarithm call found")
+            continue
+        for c in calls:
+            ok = any(k.arg == "dtype" and src_of(k.value) in floats for k in c.keywords) or floaty(c.args[0])
+            seen = set()
+            work = [x.id for x in ast.walk(c.args[0]) if isinstance(x, ast.Name)]
+            while work and not ok:
+                nm = work.pop()
+                if nm in seen:
+                    continue
+                seen.add(nm)
+                for v in assigns.get(nm, []):
+                    if floaty(v):
+                        ok = True
+                    work.extend(x.id for x in ast.walk(v) if isinstance(x, ast.Name))
+            ctx.check("C19.8", ok, fi, c, f"{fi.name}: the argument of the logarithm is floating whatever the dtype of the input", "made floating before the logarithm",
+                      f"`{src_of(c)}` is applied to the input array in its own dtype: numpy logs an 8-bit integer array in float16 and a 16-bit one in float32 - "
+                      "db(np.array([127, 200, 255], np.uint8)) = [21.03, 23., 24.06] (float16), idb(db(x)) = [126.94, 199.9, 254.9], dbm(x) - db(x) = 30.007")
 
 
 def rule_dec2bin(ctx):
@@ -568,6 +628,14 @@ def rule_str2array(ctx):
             continue
         v = rets[0].value
         tw, dw = has(v, is_resplit), has(v, is_listchars)
+        if tw and dw:
+            # both parsers occur among the alternatives of the result: something other than the requested dtype (a test on the text)
+            # decides which one reads it
+            ctx.violation("C19.6", f2, rets[0].node, label,
+                          f"with dtype {dt} the text reaches the token-wise parser on some paths and the digit-by-digit parser on others: the choice depends on a condition that is not the "
+                          "requested dtype, so some 0/1 texts are read the wrong way for it (a text whose rows hold one multi-digit token each, '101' or '10;11', read digit by digit "
+                          "under dtype=int: [1, 0, 1] instead of [101])")
+            continue
         if tw == dw:
             ctx.unknown("C19.6", f2, rets[0].node, label, "parser not identified (token-wise split / list of characters)")
             continue
@@ -660,6 +728,8 @@ def run(ctx):
     rule_rcos(ctx)
     rule_dec2bin(ctx)
     rule_str2array(ctx)
+    rule_log_precision(ctx)
+    ctx.require_min("C19.8", 2)
     ctx.require_min("C19.1", 11)
     ctx.require_min("C19.2", 10)
     ctx.require_min("C19.3", 2)
